@@ -51,6 +51,12 @@ Judge(ev) ==
             ELSE IF ~Linear(ev.t) THEN "ok"
             ELSE IF ~ev.inmodel THEN "bad:scale"
             ELSE J(V(ev.vec) = VecOf(ev.s))
+      [] ev.op = "redecl" ->
+            IF ~Known(ev.s) THEN "bad:unknown-unit"
+            ELSE IF ~ev.rejected THEN "bad:accepted"
+            ELSE IF ~ev.same \/ ev.t # TypeOfU(ev.s) THEN "bad:catalogue-changed"
+            ELSE IF ~Linear(ev.t) THEN "ok"
+            ELSE J(ev.inmodel /\ V(ev.vec) = VecOf(ev.s))
       [] ev.op = "count" -> J(ev.n = NUnits /\ \A k \in DOMAIN ev.syms : Known(ev.syms[k]))
       [] ev.op = "conv" ->
             IF ev.res.k = "e" THEN "bad:raised"
